@@ -218,7 +218,7 @@ Qed.
 
 Lemma handle_data_calm c arg : K c -> KGood (handle_data cfg c arg).
 Proof.
-  intros HK. kstart c HK. unfold handle_data, pop_data. csk. cbv zeta.
+  intros HK. kstart c HK. unfold handle_data, pop_data, close_unless. csk. cbv zeta.
   destruct arg as [|a0 arg]; [|kleaf].
   destruct bd as [b|]; [kleaf|].
   destruct bm; [kleaf|].
@@ -270,13 +270,13 @@ Proof.
   2:{ destruct more as [|a1 [|a2 more]]; [exact Hbody|exact Hbody|kleaf]. }
   destruct (parse_uint 32 a0) as [size| |]; [|kleaf|kleaf].
   destruct (negb fr || match rc with [] => true | _ :: _ => false end);
-    [rewrite discard_chunk_eq; csk; kleaf|].
+    [rewrite discard_chunk_eq; repeat brk; csk; kleaf|].
   match goal with
   | |- KGood (match ?lo with None => _ | Some _ => _ end) => destruct lo as [last|]
   end.
-  2:{ rewrite discard_chunk_eq; csk; kleaf. }
+  2:{ rewrite discard_chunk_eq; repeat brk; csk; kleaf. }
   destruct (negb (cf_max_bytes cfg =? 0)%Z && (cf_max_bytes cfg <? rv + Z.of_N size)%Z).
-  { rewrite do_reset_eq, discard_chunk_eq. csk. kleaf. }
+  { rewrite discard_chunk_eq. repeat brk; csk; kleaf. }
   destruct (negb se && match bd with Some _ => false | None => true end); [kleaf|].
   (* start the delivery if there is none *)
   assert (H0 : exists b0 ev0 be0,
